@@ -3745,8 +3745,16 @@ GRwritelut(int32 lutid, int32 ncomps, int32 nt, int32 il, int32 nentries, void *
                 HGOTO_ERROR(DFE_PUTELEM, FAIL);
         }      /* end if */
         else { /* LUT does not exist */
+            uint16 new_ref = Htagnewref(hdf_file_id, DFTAG_LUT);
+
+            /* the image is told about its palette once the palette is in the
+               file: a refused write (file open for reading only) must not
+               leave an image that announces a palette it does not have */
+            if (Hputelement(hdf_file_id, DFTAG_LUT, new_ref, data, ncomps * nentries * DFKNTsize(nt)) == FAIL)
+                HGOTO_ERROR(DFE_PUTELEM, FAIL);
+
             ri_ptr->lut_tag                  = DFTAG_LUT;
-            ri_ptr->lut_ref                  = Htagnewref(hdf_file_id, ri_ptr->lut_tag);
+            ri_ptr->lut_ref                  = new_ref;
             ri_ptr->lut_dim.dim_ref          = DFREF_WILDCARD;
             ri_ptr->lut_dim.xdim             = 256;
             ri_ptr->lut_dim.ydim             = 1;
@@ -3758,9 +3766,6 @@ GRwritelut(int32 lutid, int32 ncomps, int32 nt, int32 il, int32 nentries, void *
             ri_ptr->lut_dim.nt_ref           = DFREF_WILDCARD;
             ri_ptr->lut_dim.comp_tag         = DFTAG_NULL;
             ri_ptr->lut_dim.comp_ref         = DFREF_WILDCARD;
-            if (Hputelement(hdf_file_id, ri_ptr->lut_tag, ri_ptr->lut_ref, data,
-                            ncomps * nentries * DFKNTsize(nt)) == FAIL)
-                HGOTO_ERROR(DFE_PUTELEM, FAIL);
 
             ri_ptr->meta_modified       = TRUE;
             ri_ptr->gr_ptr->gr_modified = TRUE;
